@@ -528,6 +528,8 @@ def shards(tier, seed):
                 depth = b["deep_depth"] if L <= b["deep_len"] else b["shallow_depth"]
                 if nrows == 3 and L > 3:
                     continue
+                if nrows == 3 and L > 2:
+                    depth = b["shallow_depth"]  # 512 masks: histories of depth 2 only up to 2 columns
                 allrows = list(initial_rows(mol, nrows, L))
                 nchunks = max(1, min(len(allrows), (len(allrows) * (16 if depth > 1 else 1)) // 8))
                 for c in range(nchunks):
